@@ -574,6 +574,11 @@ class Interp(_Base):
                     for v in _dedupe_vals(vals):
                         out.append((st.fork() if len(vals) > 1 else st, v))
                     return out or R(default)
+            if meth in ("get", "setdefault") and isinstance(b, PyV) and isinstance(b.value, dict) and args \
+                    and not b.value:
+                # an (initially) empty module-level table: its call-time content is unknown; the
+                # store that fills it is reported as an effect, reads yield the default
+                return R(args[1] if len(args) > 1 else NONE)
             if meth in ("items", "keys", "values") and isinstance(b, PyV) and isinstance(b.value, dict):
                 if meth == "items":
                     return R(TupleV([TupleV([self.lift(k), self.lift(v)]) for k, v in b.value.items()],
